@@ -34,20 +34,34 @@ EMIT_METHODS = ("set", "add_section", "append", "setdefault", "extend", "update"
 class WriterValidates(PathRule):
     """state: frozenset of flags  'V' validate() was called, 'E' something was emitted"""
 
-    def __init__(self, func, selfname, out_aliases, cls=None, depth=0):
+    def __init__(self, func, selfname, out_aliases, cls=None, depth=0, defcls=None):
         self.selfname = selfname
         self.aliases = out_aliases
         self.cls = cls
         self.depth = depth
+        self.defcls = defcls          # the class whose method is being walked (for super())
 
     def _helper_summary(self, c):
         """self.<helper>(...) of the same class: (validates on every normal exit, emits on some exit)"""
-        if self.cls is None or self.depth >= 2 or not (isinstance(c.func, ast.Attribute) and isinstance(c.func.value, ast.Name)
-                                                        and c.func.value.id == self.selfname):
+        if self.cls is None or self.depth >= 2 or not isinstance(c.func, ast.Attribute):
             return None
-        lk = self.cls.lookup(c.func.attr)
-        if lk is None or c.func.attr in ("serialize", "validate") or c.func.attr in lk[0].properties or lk[0].qname == "common.MetadataBase":
-            return None
+        if isinstance(c.func.value, ast.Call) and dotted(c.func.value.func) == "super" and self.defcls is not None:
+            # super(K, self).serialize(out): the next definition along the MRO
+            mro = self.cls.mro()
+            lk = None
+            if self.defcls in mro:
+                for k_ in mro[mro.index(self.defcls) + 1:]:
+                    if c.func.attr in k_.methods and k_.qname != "common.MetadataBase":
+                        lk = (k_, k_.methods[c.func.attr])
+                        break
+            if lk is None:
+                return None
+        else:
+            if not (isinstance(c.func.value, ast.Name) and c.func.value.id == self.selfname):
+                return None
+            lk = self.cls.lookup(c.func.attr)
+            if lk is None or c.func.attr in ("serialize", "validate") or c.func.attr in lk[0].properties or lk[0].qname == "common.MetadataBase":
+                return None
         fn = lk[1]
         params = [a.arg for a in fn.args.args]
         if not params:
@@ -60,7 +74,7 @@ class WriterValidates(PathRule):
         for k in c.keywords:
             if k.arg and facts._root_name(k.value) in self.aliases:
                 outs.add(k.arg)
-        rule = WriterValidates(fn, params[0], facts.rooted_aliases(fn, outs) if outs else set(), self.cls, self.depth + 1)
+        rule = WriterValidates(fn, params[0], facts.rooted_aliases(fn, outs) if outs else set(), self.cls, self.depth + 1, lk[0])
         ex = Walker(rule).run(fn, {frozenset()})
         exits = list(ex.normal) + [s_ for s_, _ in ex.ret]
         if not exits:
@@ -110,7 +124,7 @@ def r_writer_validates(model, rep):
             raise AnalysisError("%s.serialize has no output parameter" % cls.qname)
         selfname, out = args[0], args[1]
         aliases = facts.rooted_aliases(fn, {out})
-        rule = WriterValidates(fn, selfname, aliases, cls)
+        rule = WriterValidates(fn, selfname, aliases, cls, 0, defcls)
         ex = Walker(rule).run(fn, {frozenset()})
         bad = []
         emitted_somewhere = False
